@@ -269,6 +269,16 @@ func checkC08Loader(p *Prog, r *Report, ru *Rule, load *ssa.Function) {
 		call, ok := ev.(*ssa.Call)
 
 		if !ok {
+			/* A package-level error made once (var errX = errors.New(…)). */
+			if once := p.globalOnce(ev); nil != once {
+				if mi, isMI := once.(*ssa.MakeInterface); isMI {
+					once = mi.X
+				}
+				if _, isCall := once.(*ssa.Call); isCall {
+					judgeErr(once, c, ret)
+					return
+				}
+			}
 			if ev == ssa.Value(readErr) {
 				ru.OK(c, posOf(ret), "returns the file read's own error")
 				return
